@@ -20,7 +20,7 @@ RxReason(s, ps, deps, i) ==
     ELSE RxReason(a.s, ps, deps, i + 1)
 
 PayloadStep(e, s) ==
-  LET it == Items(e.units, 1, s.stapa, s.pend, <<>>) IN
+  LET it == Items(e.units, 1, e.stapa, s.pend, <<>>) IN      \* DisableStapA is a plain field: the application may change it between calls
   IF e.res # "ok" THEN [reason |-> "payload_panic", s |-> s]
   ELSE IF e.input # AnnexB(e.units, e.scs) THEN [reason |-> "harness_input", s |-> s]
   \* the access units lie in one caller buffer: a call must not write into its window nor into what lies behind it
